@@ -1610,15 +1610,9 @@ def _apply_constraints_iteratively(
     for iteration in range(max_iter):
         changed = False
 
-        # check if we already resolved everything
-        if all(
-            [
-                all([shape_dict[o][i] is not None for i in range(3)])
-                and all([all([slice_dict[o][i][s] is not None for s in range(2)]) for i in range(3)])
-                for o in object_map.keys()
-            ]
-        ):
-            break
+        # Do not leave early once every cell is resolved: constraints whose inputs only became known
+        # during the previous pass have not been validated yet. The loop ends through the
+        # ``not changed`` exit below, i.e. after a full pass that checked every constraint.
 
         # Try to resolve positions from partial_real_position if size is now known
         resolved, slice_dict, errors = _resolve_static_positions_iterative(
